@@ -4,6 +4,7 @@ import CvGen.PyPerm
 import CvGen.PyFamilies
 import CvGen.PyGlobe
 import CvGen.PyRings
+import CvGen.PyGraphDef
 
 namespace Cv.PyGen
 open Cv.Py
@@ -78,6 +79,10 @@ def dispatch (fn : String) (args : List (List Int)) : String :=
   | "Rings.get_pair_variants", (a0 :: _) :: (a1 :: _) :: [] => showRes (Cv.PyGen.Rings.get_pair_variants a0 a1)
   | "Rings.hungarian_rings_generators", (a0 :: _) :: (a1 :: _) :: (a2 :: _) :: (a3 :: _) :: [] => showRes (Cv.PyGen.Rings.hungarian_rings_generators a0 a1 a2 a3)
   | "Rings.get_group", (a0 :: _) :: [] => showRes (Cv.PyGen.Rings.get_group a0)
+  | "GraphDef.generators_inverse_map", rest => showRes (Cv.PyGen.GraphDef.generators_inverse_map rest)
+  | "GraphDef.with_inverted_generators", a0 :: rest => showRes (Cv.PyGen.GraphDef.with_inverted_generators rest a0)
+  | "GraphDef.make_inverse_closed", a0 :: a1 :: a2 :: (a3 :: _) :: rest => showRes (Cv.PyGen.GraphDef.make_inverse_closed rest (a0.map fun i => "n" ++ toString i) a1 (match a2 with | [] => "" | i :: _ => "s" ++ toString i) (a3 != 0))
+  | "GraphDef.revert_path", a0 :: a1 :: [] => showRes (Cv.PyGen.GraphDef.revert_path (match a0 with | 1 :: xs => some xs | _ => none) a1)
   | _, _ => "ERR pygen"
 
 end Cv.PyGen
